@@ -110,7 +110,11 @@ theorem pram_infinite_below_endurance (c : PramCurve ℝ) (h : c.Adm) :
 `calc_P_RAJ` the initial `P_RAJ_D_0` (field `PD0`).  The inverse statements therefore speak about
 parameter values above both. -/
 
-theorem praj_curve_inverse (c : PrajCurve ℝ) (h : c.Adm) :
+/-- **Partial.**  Full statement: `P(N(P)) = P` for every `P` above the endurance value the curve uses in `calc_N`
+(the current `_P_RAJ_D`).  Proved: for every `P` above BOTH endurance values.  The guard `c.PD0 < P` excludes exactly the
+band `(P_RAJ_D, P_RAJ_D_0]` of a curve whose endurance value has been lowered by `update_P_RAJ_D`; there the full statement
+is FALSE for the code (`praj_updated_band`, `praj_updated_band_refuted`; open finding `praj-updated-endurance-band`). -/
+theorem praj_curve_inverse_partial (c : PrajCurve ℝ) (h : c.Adm) :
     (∀ P, c.PD < P → c.PD0 < P → prajCalcPLife c (prajCalcN c P) = P) ∧
     (∀ N, 0 < N → N < prajLifeLimit c → c.PD ≤ c.PD0 → prajCalcN c (prajCalcP c N) = .finite N) := by
   refine ⟨fun P hP hP0 => ?_, fun N hN0 hN hle => ?_⟩
@@ -119,8 +123,73 @@ theorem praj_curve_inverse (c : PrajCurve ℝ) (h : c.Adm) :
   · have hP : c.PD < prajCalcP c N := lt_of_le_of_lt hle (prajCalcP_lo h hN0 hN).2
     simp only [prajCalcN, if_pos hP, prajN_prajCalcP h hN0 hN]
 
-example : (⟨-0.6, 500, 0.3, 0.3⟩ : PrajCurve ℝ).Adm := by
+/-- The full inverse statement for a curve whose endurance value has not been changed (`_P_RAJ_D = P_RAJ_D_0`, the state
+after construction): no guard besides admissibility. -/
+theorem praj_curve_inverse_fresh (c : PrajCurve ℝ) (h : c.Adm) (hf : c.PD = c.PD0) :
+    (∀ P, c.PD < P → prajCalcPLife c (prajCalcN c P) = P) ∧
+    (∀ P, P ≤ c.PD → prajCalcPLife c (prajCalcN c P) = c.PD) ∧
+    (∀ N, 0 < N → N < prajLifeLimit c → prajCalcN c (prajCalcP c N) = .finite N) := by
+  refine ⟨fun P hP => (praj_curve_inverse_partial c h).1 P hP (hf ▸ hP), fun P hP => ?_,
+    fun N hN0 hN => (praj_curve_inverse_partial c h).2 N hN0 hN hf.le⟩
+  rw [prajCalcN, if_neg (not_lt.mpr hP)]
+  simp only [prajCalcPLife, hf]
+
+example : (⟨-0.6, 500, 0.3, 0.3⟩ : PrajCurve ℝ).Adm ∧ (⟨-0.6, 500, 0.3, 0.3⟩ : PrajCurve ℝ).PD = (⟨-0.6, 500, 0.3, 0.3⟩ : PrajCurve ℝ).PD0 := by
   unfold PrajCurve.Adm; norm_num
+
+/-- **The band `(P_RAJ_D, P_RAJ_D_0]` of a curve with lowered endurance value** (what the code does there): `calc_N` is
+finite (it tests the current `_P_RAJ_D`) and at least the life limit `N_D` of the initial endurance value, `calc_P_RAJ` of
+that number of cycles is the INITIAL endurance value `P_RAJ_D_0` (it tests `fatigue_life_limit`, computed from
+`P_RAJ_D_0`); so `P(N(P)) ≠ P` for every `P` strictly inside the band, `calc_P_RAJ` is constant on
+`[N_D, N_D,final)` although `calc_N` takes all these values as finite lives, and `N_D < N_D,final`. -/
+theorem praj_updated_band (c : PrajCurve ℝ) (h : c.Adm) (hPD : 0 < c.PD) (hlow : c.PD < c.PD0) :
+    (∀ P, c.PD < P → P ≤ c.PD0 →
+      prajCalcN c P = .finite (prajN c P) ∧ prajLifeLimit c ≤ prajN c P ∧ prajN c P < prajLifeLimitFinal c ∧
+      prajCalcPLife c (prajCalcN c P) = c.PD0 ∧ (P < c.PD0 → prajCalcPLife c (prajCalcN c P) ≠ P)) ∧
+    (∀ N, prajLifeLimit c ≤ N → prajCalcP c N = c.PD0) ∧
+    prajLifeLimit c < prajLifeLimitFinal c := by
+  have hlim : prajN c c.PD0 = prajLifeLimit c := by rw [prajN_eq, prajLifeLimit_eq]
+  have hfin : prajN c c.PD = prajLifeLimitFinal c := by
+    rw [prajN_eq]; simp only [prajLifeLimitFinal, transc_pow, lit_1, one_div]
+  refine ⟨fun P hP hle => ?_, fun N hN => prajCalcP_hi hN, ?_⟩
+  · have hP0 : 0 < P := lt_trans hPD hP
+    have hge : prajLifeLimit c ≤ prajN c P := by
+      rcases eq_or_lt_of_le hle with heq | hlt
+      · rw [heq, hlim]
+      · rw [← hlim]; exact (prajN_strictAnti h hP0 hlt).le
+    have hback : prajCalcPLife c (prajCalcN c P) = c.PD0 := by
+      simp only [prajCalcN, if_pos hP, prajCalcPLife]
+      exact prajCalcP_hi hge
+    refine ⟨by simp only [prajCalcN, if_pos hP], hge, ?_, hback, fun hlt => ?_⟩
+    · rw [← hfin]; exact prajN_strictAnti h hPD hP
+    · rw [hback]; exact ne_of_gt hlt
+  · rw [← hlim, ← hfin]; exact prajN_strictAnti h hPD hlow
+
+/-- kernel-checked refutation of the full inverse / strict monotonicity statements at the auditor's witness
+(`P_RAJ_Z = 150`, `P_RAJ_D_0 = 10`, `d = −1/2`, `update_P_RAJ_D(9)`): `calc_P_RAJ(calc_N(9.5)) = 10`. -/
+theorem praj_updated_band_refuted :
+    let c : PrajCurve ℝ := ⟨-1/2, 150, 10, 9⟩
+    c.Adm ∧ (∃ n, prajCalcN c (19/2) = .finite n) ∧ prajCalcPLife c (prajCalcN c (19/2)) = 10 ∧
+    prajCalcPLife c (prajCalcN c (19/2)) ≠ 19/2 ∧
+    ¬ (∀ P, c.PD < P → prajCalcPLife c (prajCalcN c P) = P) ∧
+    ¬ StrictAntiOn (prajCalcP c) (Set.Ioo 0 (prajLifeLimitFinal c)) := by
+  intro c
+  have hA : c.Adm := by unfold PrajCurve.Adm; norm_num [c]
+  have hB := praj_updated_band c hA (by norm_num [c]) (by norm_num [c])
+  obtain ⟨h1, h2, h3, h4, h5⟩ := hB.1 (19/2) (by norm_num [c]) (by norm_num [c])
+  have h10 : c.PD0 = 10 := rfl
+  refine ⟨hA, ⟨_, h1⟩, by rw [h4, h10], by rw [h4, h10]; norm_num, fun hall => ?_, fun hanti => ?_⟩
+  · exact h5 (by norm_num [c]) (hall (19/2) (by norm_num [c]))
+  · -- two different finite lives in [N_D, N_D,final) with the same parameter value
+    have hpos : 0 < prajLifeLimit c := hA.limit_pos
+    have hlt := hB.2.2
+    set a := prajLifeLimit c
+    set b := prajLifeLimitFinal c
+    have hm : a < (a + b) / 2 := by linarith
+    have hm2 : (a + b) / 2 < b := by linarith
+    have := hanti (a := a) ⟨hpos, hlt⟩ (b := (a + b) / 2) ⟨by linarith, hm2⟩ hm
+    rw [hB.2.1 a le_rfl, hB.2.1 _ hm.le] at this
+    exact lt_irrefl _ this
 
 theorem praj_branch_consistency (c : PrajCurve ℝ) (h : c.Adm) :
     (∀ P, c.PD0 < P → 0 < prajN c P ∧ prajN c P < prajLifeLimit c) ∧
@@ -313,6 +382,161 @@ example : let ds : List (ℝ × Nat) := [(1/4, 1), (1/8, 2), (1/8, 2)]
   simp only [sumRun, lit_0]
   norm_num
 
+/-- **Partial** (same statement as `lifetime_eq_accumulation`, which keeps its name because `Proofs/Lemmas/Assessment.lean`
+uses it).  Full statement of the clause: the reported numbers of passes / cycles equal the literal accumulation for EVERY
+table.  The guard `hlt : D₁ + D₂ < 1` excludes exactly the tables whose damage sum reaches one within the two recorded
+passes; for those see `lifetime_early_failure` (what the code reports) and `lifetime_vs_literal_passes` (where that differs
+from the literal accumulation: open finding `early-failure-zero-repetitions`).  `hD2 : 0 < D₂`: for `D₂ = 0` the code
+returns `inf`, see `zero_second_pass_damage_is_infinite`. -/
+theorem lifetime_eq_accumulation_partial (ds : List (ℝ × Nat))
+    (hnn : ∀ p ∈ ds, 0 ≤ p.1) (hrun : ∀ p ∈ ds, p.2 = 1 ∨ p.2 = 2)
+    (hlt : sumRun 1 ds + sumRun 2 ds < 1) (hD2 : 0 < sumRun 2 ds) :
+    let r := lifetimeOfDamages ds
+    let D₁ := sumRun 1 ds
+    let D₂ := sumRun 2 ds
+    r.early = false ∧ r.x = (1 - D₁) / D₂ ∧ D₁ + r.x * D₂ = 1 ∧ (∀ t : ℝ, D₁ + t * D₂ = 1 → t = r.x) ∧
+    1 < r.x ∧ (∀ k : ℕ, D₁ + k * D₂ < 1 ↔ (k : ℝ) < r.x) ∧
+    r.nSeq = 1 + r.x ∧
+    r.nCycles = (1 + r.x) * ((ds.filter (fun p => p.2 = 2)).length : ℝ) :=
+  lifetime_eq_accumulation ds hnn hrun hlt hD2
+
+/-- **Early failure** (`D₁ + D₂ ≥ 1`: the damage sum reaches one within the two recorded passes) - what the code reports:
+the early-failure branch is taken, `_n_cycles_until_damage` is an index of the table and is the literal hysteresis count
+(every shorter prefix of the recorded table stays below one, the prefix ending at this hysteresis reaches one),
+`lifetime_n_cycles` is that count and `lifetime_n_times_load_sequence` is `0`. -/
+theorem lifetime_early_failure (ds : List (ℝ × Nat))
+    (hnn : ∀ p ∈ ds, 0 ≤ p.1) (hrun : ∀ p ∈ ds, p.2 = 1 ∨ p.2 = 2)
+    (hge : 1 ≤ sumRun 1 ds + sumRun 2 ds) :
+    let r := lifetimeOfDamages ds
+    let D := ds.map (·.1)
+    r.early = true ∧ r.idx < ds.length ∧ (∀ j, j < r.idx → (D.take (j + 1)).sum < 1) ∧
+    1 ≤ (D.take (r.idx + 1)).sum ∧ r.nSeq = 0 ∧ r.nCycles = (r.idx : ℝ) := by
+  intro r D
+  obtain ⟨-, hbefore, hat, hiff, hsum, hres⟩ := early_failure_index ds
+  have he : r.early = true := (hsum hnn).mpr (by rw [sumRun_split ds hrun]; exact hge)
+  have hidx : r.idx < ds.length := hiff.mp he
+  exact ⟨he, hidx, hbefore, hat hidx, (hres he).1, (hres he).2⟩
+
+/-- The literal reading of the property text for the number of passes: the first pass once, then the second pass `t`
+times (`t` real: a started pass counts with the fraction of its damage that is still bearable, exactly as the fractional
+part of `x` in eq. (2.6-90)) until `D₁ + t·D₂ = 1`; the lifetime is `1 + t` passes. -/
+noncomputable def Spec.literalPasses (D1 D2 : ℝ) : ℝ := 1 + (1 - D1) / D2
+
+/-- **Code versus literal accumulation on the whole range `D₁ < 1`, `D₂ > 0`** (failure not within the first pass).
+`Spec.literalPasses` is the unique solution of the accumulation equation and exceeds one.  If the two recorded passes stay
+below one the code reports exactly it (and it exceeds two).  If the damage sum reaches one within the SECOND recorded pass
+(`D₁ < 1 ≤ D₁ + D₂`) the literal value lies in `(1, 2]` but the code reports `0`: the clause "lifetime = literal
+accumulation" is FALSE for the code there (open finding `early-failure-zero-repetitions`; the reported value jumps from
+`2` to `0` at `D₁ + D₂ = 1`).  For `D₁ ≥ 1` (failure within the first pass) the property text does not say which
+fraction of a pass is meant; the code's `0` (no complete pass) is taken as conforming (ASSUMPTIONS). -/
+theorem lifetime_vs_literal_passes (ds : List (ℝ × Nat))
+    (hnn : ∀ p ∈ ds, 0 ≤ p.1) (hrun : ∀ p ∈ ds, p.2 = 1 ∨ p.2 = 2)
+    (hD1 : sumRun 1 ds < 1) (hD2 : 0 < sumRun 2 ds) :
+    let r := lifetimeOfDamages ds
+    let D₁ := sumRun 1 ds
+    let D₂ := sumRun 2 ds
+    let L := Spec.literalPasses D₁ D₂
+    D₁ + (L - 1) * D₂ = 1 ∧ (∀ t : ℝ, D₁ + t * D₂ = 1 → 1 + t = L) ∧ 1 < L ∧
+    (D₁ + D₂ < 1 → r.early = false ∧ r.nSeq = L ∧ 2 < L) ∧
+    (1 ≤ D₁ + D₂ → r.early = true ∧ L ≤ 2 ∧ r.nSeq = 0 ∧ r.nSeq ≠ L) := by
+  intro r D₁ D₂ L
+  have hne : D₂ ≠ 0 := ne_of_gt hD2
+  have hL : L = 1 + (1 - D₁) / D₂ := rfl
+  have hpos : 0 < (1 - D₁) / D₂ := div_pos (by linarith) hD2
+  have h1L : 1 < L := by rw [hL]; linarith
+  refine ⟨?_, ?_, h1L, fun hlt => ?_, fun hge => ?_⟩
+  · rw [hL]; field_simp; ring
+  · intro t ht
+    rw [hL]
+    have : t = (1 - D₁) / D₂ := by rw [eq_div_iff hne]; linarith
+    rw [this]
+  · obtain ⟨he, hx, -, -, hx1, -, hs, -⟩ := lifetime_eq_accumulation ds hnn hrun hlt hD2
+    refine ⟨he, ?_, ?_⟩
+    · rw [hs, hx]; rfl
+    · have : (1:ℝ) < (1 - D₁) / D₂ := by rw [← hx]; exact hx1
+      rw [hL]; linarith
+  · obtain ⟨he, -, -, -, hs, -⟩ := lifetime_early_failure ds hnn hrun hge
+    have hle : (1 - D₁) / D₂ ≤ 1 := by rw [div_le_one hD2]; linarith
+    refine ⟨he, by rw [hL]; linarith, hs, ?_⟩
+    rw [hs]; exact ne_of_lt (by linarith)
+
+/-- kernel-checked instance of the finding (the auditor's witness `D₁ = 1/2`, `D₂ = 3/4`): literally `1 + 2/3` passes,
+the code reports `0` passes and `1` cycle (the index of the failing hysteresis). -/
+theorem lifetime_early_pass2_refuted :
+    let ds : List (ℝ × Nat) := [(1/2, 1), (3/4, 2)]
+    Spec.literalPasses (sumRun 1 ds) (sumRun 2 ds) = 5/3 ∧ (lifetimeOfDamages ds).nSeq = 0 ∧
+    (lifetimeOfDamages ds).nCycles = 1 ∧ (lifetimeOfDamages ds).nSeq ≠ Spec.literalPasses (sumRun 1 ds) (sumRun 2 ds) := by
+  intro ds
+  have h1 : sumRun 1 ds = 1/2 := by simp only [ds, sumRun, lit_0]; norm_num
+  have h2 : sumRun 2 ds = 3/4 := by simp only [ds, sumRun, lit_0]; norm_num
+  have hnn : ∀ p ∈ ds, 0 ≤ p.1 := by
+    intro p hp
+    simp only [ds, List.mem_cons, List.mem_nil_iff, or_false] at hp
+    rcases hp with rfl | rfl <;> norm_num
+  have hrun : ∀ p ∈ ds, p.2 = 1 ∨ p.2 = 2 := by simp [ds]
+  have H := lifetime_vs_literal_passes ds hnn hrun (by rw [h1]; norm_num) (by rw [h2]; norm_num)
+  obtain ⟨-, -, hs, hne⟩ := H.2.2.2.2 (by rw [h1, h2]; norm_num)
+  obtain ⟨-, hidx, hbefore, -, -, hc⟩ := lifetime_early_failure ds hnn hrun (by rw [h1, h2]; norm_num)
+  have hL : Spec.literalPasses (sumRun 1 ds) (sumRun 2 ds) = 5/3 := by rw [h1, h2, Spec.literalPasses]; norm_num
+  refine ⟨hL, hs, ?_, hne⟩
+  -- the failing hysteresis is the second one (index 1): index 0 would need 1/2 ≥ 1, index < 2
+  have hlen : ds.length = 2 := rfl
+  have hi : (lifetimeOfDamages ds).idx = 1 := by
+    have hlt : (lifetimeOfDamages ds).idx < 2 := hlen ▸ hidx
+    rcases Nat.lt_or_ge 0 (lifetimeOfDamages ds).idx with hpos | hz
+    · omega
+    · exfalso
+      have h0 : (lifetimeOfDamages ds).idx = 0 := by omega
+      obtain ⟨-, -, -, hat, -, -⟩ := lifetime_early_failure ds hnn hrun (by rw [h1, h2]; norm_num)
+      rw [h0] at hat
+      norm_num [ds] at hat
+  rw [hc, hi]; norm_num
+
+/-- **The two cycle conventions of the code.**  In the regular case the code reports `(1 + x)·n₂` cycles (eq. (2.6-91):
+passes times the number `n₂ = H₀` of hystereses of the repeated pass - the reading the guideline's worked example 2.7.1
+pins: 14618 cycles for `n₁ = 3`, `n₂ = 4`, `1 + x = 3654.5`), NOT the count `n₁ + x·n₂` of the hystereses literally
+accumulated; the two differ by the constant `n₂ − n₁` and agree exactly when both passes recorded the same number of
+hystereses.  (In the early-failure case the code reports the hysteresis count, `lifetime_early_failure`.) -/
+theorem lifetime_cycles_convention (ds : List (ℝ × Nat))
+    (hnn : ∀ p ∈ ds, 0 ≤ p.1) (hrun : ∀ p ∈ ds, p.2 = 1 ∨ p.2 = 2)
+    (hlt : sumRun 1 ds + sumRun 2 ds < 1) (hD2 : 0 < sumRun 2 ds) :
+    let r := lifetimeOfDamages ds
+    let n₁ : ℝ := ((ds.filter (fun p => p.2 = 1)).length : ℝ)
+    let n₂ : ℝ := ((ds.filter (fun p => p.2 = 2)).length : ℝ)
+    r.nCycles = r.nSeq * n₂ ∧ r.nCycles - (n₁ + r.x * n₂) = n₂ - n₁ ∧ (r.nCycles = n₁ + r.x * n₂ ↔ n₁ = n₂) := by
+  intro r n₁ n₂
+  obtain ⟨-, -, -, -, -, -, hs, hc⟩ := lifetime_eq_accumulation ds hnn hrun hlt hD2
+  have hc' : r.nCycles = (1 + r.x) * n₂ := hc
+  refine ⟨by rw [hc', hs], by rw [hc']; ring, ?_⟩
+  rw [hc']
+  constructor <;> intro h <;> linarith
+
+example : let ds : List (ℝ × Nat) := [(1/8, 1), (1/8, 1), (1/8, 1), (1/8, 2)]
+    (∀ p ∈ ds, 0 ≤ p.1) ∧ (∀ p ∈ ds, p.2 = 1 ∨ p.2 = 2) ∧ sumRun 1 ds + sumRun 2 ds < 1 ∧ 0 < sumRun 2 ds ∧
+    ((ds.filter (fun p => p.2 = 1)).length : ℝ) ≠ ((ds.filter (fun p => p.2 = 2)).length : ℝ) := by
+  simp only [sumRun, lit_0]
+  norm_num
+
+/-- a run whose damage sum is zero has no damaging hysteresis -/
+theorem sumRun_eq_zero (run : Nat) : ∀ ds : List (ℝ × Nat), (∀ p ∈ ds, 0 ≤ p.1) → sumRun run ds = 0 →
+    ∀ p ∈ ds, p.2 = run → p.1 = 0
+  | [], _, _ => by simp
+  | (d, q) :: rest, hnn, hs => by
+    intro p hp hr
+    have hd : 0 ≤ d := hnn (d, q) List.mem_cons_self
+    have hnn' : ∀ p ∈ rest, 0 ≤ p.1 := fun p hp => hnn p (List.mem_cons_of_mem _ hp)
+    have hrest := sumRun_nonneg run rest hnn'
+    simp only [sumRun] at hs
+    by_cases hq : q = run
+    · rw [if_pos hq] at hs
+      rcases List.mem_cons.mp hp with rfl | hp'
+      · show d = 0; linarith
+      · exact sumRun_eq_zero run rest hnn' (by linarith) p hp' hr
+    · rw [if_neg hq] at hs
+      rcases List.mem_cons.mp hp with rfl | hp'
+      · exact absurd hr hq
+      · exact sumRun_eq_zero run rest hnn' hs p hp' hr
+
 /-- the same for the calculator fed with a collective: non-negative `P_RAM` values and run indices 1, 2 -/
 theorem lifetime_eq_accumulation_rows (c : PramCurve ℝ) (h : c.Adm) (rows : List (Row ℝ))
     (hP : ∀ r ∈ rows, 0 ≤ r.P) (hrun : ∀ r ∈ rows, r.run = 1 ∨ r.run = 2) :
@@ -360,6 +584,97 @@ theorem isLifeInfinite_iff (c : PramCurve ℝ) (rows : List (Row ℝ)) :
       cases this
     · left; exact h2
 
+/-- **`D₂ = 0`** (the guard `hD2` of the theorems above; over ℝ the model's `x/0 = 0` would give one pass, the code - and
+the model at `Float` - gives `inf`): no damage in the second pass means that every hysteresis of the second pass has
+`P_RAM = 0`, hence the verdict `is_life_infinite` is true: the lifetime numbers of such a table are never the verdict. -/
+theorem zero_second_pass_damage_is_infinite (c : PramCurve ℝ) (h : c.Adm) (rows : List (Row ℝ))
+    (hP : ∀ r ∈ rows, 0 ≤ r.P) (hD2 : sumRun 2 (rows.map fun r => (rowD c r, r.run)) = 0) :
+    (∀ r ∈ rows, r.run = 2 → r.P = 0) ∧ isLifeInfinite c rows = true := by
+  have hnn : ∀ p ∈ rows.map (fun r => (rowD c r, r.run)), 0 ≤ p.1 := by
+    intro p hp
+    obtain ⟨r, hr, rfl⟩ := List.mem_map.mp hp
+    exact rowD_nonneg c h r (hP r hr)
+  have hz : ∀ r ∈ rows, r.run = 2 → r.P = 0 := by
+    intro r hr h2
+    have hd := sumRun_eq_zero 2 _ hnn hD2 (rowD c r, r.run) (List.mem_map.mpr ⟨r, hr, rfl⟩) h2
+    rcases eq_or_lt_of_le (hP r hr) with h0 | hpos
+    · exact h0.symm
+    · exfalso
+      have hN := pramN_pos h hpos
+      have : 0 < rowD c r := by
+        simp only [rowD, lit_1, lit_05]
+        split_ifs <;> positivity
+      have hd' : rowD c r = 0 := hd
+      linarith
+  refine ⟨hz, (isLifeInfinite_iff c rows).mpr fun r hr h2 => ?_⟩
+  have : r.P ≤ c.PD := by rw [hz r hr h2]; exact h.1.le
+  simp only [pramCalcN, if_neg (not_lt.mpr this)]
+
+/-! ## several assessment points in one table -/
+
+/-- cutting the flat table of the recorder (hysteresis blocks of `n` rows each) gives the blocks back -/
+theorem chunk_flatten {β : Type} (n : Nat) (hn : 0 < n) : ∀ (blocks : List (List β)) (fuel : Nat),
+    (∀ b ∈ blocks, b.length = n) → blocks.length ≤ fuel → chunk n fuel blocks.flatten = blocks
+  | [], fuel, _, _ => by cases fuel <;> simp [chunk]
+  | b :: bs, 0, _, hf => by simp at hf
+  | b :: bs, fuel+1, hb, hf => by
+    have hbl : b.length = n := hb b List.mem_cons_self
+    have hfl : (b :: bs).flatten = b ++ bs.flatten := by simp
+    rw [hfl]
+    have ih := chunk_flatten n hn bs fuel (fun c hc => hb c (List.mem_cons_of_mem _ hc))
+      (by simp only [List.length_cons] at hf; omega)
+    match hl : b ++ bs.flatten with
+    | [] =>
+      exfalso
+      have := congrArg List.length hl
+      simp only [List.length_append, List.length_nil] at this
+      omega
+    | x :: xs =>
+      simp only [chunk]
+      rw [← hl, List.take_left' hbl, List.drop_left' hbl, ih]
+
+theorem length_le_length_flatten {β : Type} (n : Nat) (hn : 0 < n) : ∀ (blocks : List (List β)),
+    (∀ b ∈ blocks, b.length = n) → blocks.length ≤ blocks.flatten.length
+  | [], _ => by simp
+  | b :: bs, hb => by
+    have := length_le_length_flatten n hn bs (fun c hc => hb c (List.mem_cons_of_mem _ hc))
+    have hbl : b.length = n := hb b List.mem_cons_self
+    simp only [List.flatten_cons, List.length_append, List.length_cons]
+    omega
+
+/-- no hysteresis of a point is lost: point `k < n` has one row in every block -/
+theorem pointRows_length {β : Type} (n k : Nat) (hk : k < n) : ∀ (blocks : List (List β)),
+    (∀ b ∈ blocks, b.length = n) → (pointRows k blocks).length = blocks.length
+  | [], _ => by simp [pointRows]
+  | b :: bs, hb => by
+    have ih := pointRows_length n k hk bs (fun c hc => hb c (List.mem_cons_of_mem _ hc))
+    have hbl : b.length = n := hb b List.mem_cons_self
+    have hsome : b[k]? = some (b[k]'(by omega)) := List.getElem?_eq_getElem (by omega)
+    simp only [pointRows, List.filterMap_cons, hsome, List.length_cons] at ih ⊢
+    omega
+
+/-- **A table with several assessment points is assessed point by point**: for the flat table the recorder delivers
+(hysteresis blocks with one row per point) the result for point `k` is `DamageCalculatorPRAM`'s result for the table that
+holds the `k`-th row of every block, with the `k`-th curve - every statement above about one point therefore holds for
+every point of a multi-point table, whatever the other points are. -/
+theorem damagePRAMBatch_eq_single (curves : List (PramCurve ℝ)) (blocks : List (List (Row ℝ)))
+    (hn : 0 < curves.length) (hb : ∀ b ∈ blocks, b.length = curves.length) :
+    damagePRAMBatch curves blocks.flatten =
+      curves.zipIdx.map (fun ck => (damagePRAM ck.1 (pointRows ck.2 blocks), isLifeInfinite ck.1 (pointRows ck.2 blocks))) ∧
+    (damagePRAMBatch curves blocks.flatten).length = curves.length := by
+  have hc := chunk_flatten curves.length hn blocks blocks.flatten.length hb
+    (length_le_length_flatten curves.length hn blocks hb)
+  constructor
+  · simp only [damagePRAMBatch, hc]
+  · simp only [damagePRAMBatch, List.length_map, List.length_zipIdx]
+
+example : damagePRAMBatch [(⟨-1, -1, 1, 1/2⟩ : PramCurve ℝ), ⟨-1, -1, 2, 1⟩]
+      ([[⟨1000, true, 1⟩, ⟨500, true, 1⟩], [⟨250, false, 2⟩, ⟨4000, true, 2⟩]] : List (List (Row ℝ))).flatten =
+    [(damagePRAM ⟨-1, -1, 1, 1/2⟩ [⟨1000, true, 1⟩, ⟨250, false, 2⟩], isLifeInfinite (⟨-1, -1, 1, 1/2⟩ : PramCurve ℝ) [⟨1000, true, 1⟩, ⟨250, false, 2⟩]),
+     (damagePRAM ⟨-1, -1, 2, 1⟩ [⟨500, true, 1⟩, ⟨4000, true, 2⟩], isLifeInfinite (⟨-1, -1, 2, 1⟩ : PramCurve ℝ) [⟨500, true, 1⟩, ⟨4000, true, 2⟩])] := by
+  rw [(damagePRAMBatch_eq_single _ _ (by simp) (by simp)).1]
+  simp [List.zipIdx, pointRows]
+
 /-! ## load safety factors -/
 
 /-- `P_L` of the guideline: 2.5 % or 50 % -/
@@ -403,15 +718,89 @@ theorem gammaL_formulas (PA beta s Lmax : ℝ) (pl : Spec.PL) (hb : getBeta PA =
   · cases pl <;> simp only [gammaLBlanket, Spec.PL.val] <;> norm_num [isclose_num]
   · simp only [gammaLBlanket]; norm_num [isclose_num]
 
+/-- `maxAbsFrom` keeps a running maximum of absolute values -/
+theorem maxAbsFrom_spec : ∀ (l : List ℝ) (m : ℝ),
+    m ≤ maxAbsFrom m l ∧ (∀ x ∈ l, |x| ≤ maxAbsFrom m l) ∧ (maxAbsFrom m l = m ∨ ∃ x ∈ l, maxAbsFrom m l = |x|)
+  | [], m => by simp [maxAbsFrom]
+  | y :: ys, m => by
+    simp only [maxAbsFrom, transc_abs]
+    obtain ⟨h1, h2, h3⟩ := maxAbsFrom_spec ys (if m < |y| then |y| else m)
+    have hm : m ≤ (if m < |y| then |y| else m) := by split_ifs with h <;> linarith
+    have hy : |y| ≤ (if m < |y| then |y| else m) := by split_ifs with h <;> linarith
+    refine ⟨le_trans hm h1, ?_, ?_⟩
+    · intro x hx
+      rcases List.mem_cons.mp hx with rfl | hx'
+      · exact le_trans hy h1
+      · exact h2 x hx'
+    · rcases h3 with h3 | ⟨x, hx, h3⟩
+      · by_cases h : m < |y|
+        · right; exact ⟨y, List.mem_cons_self, by rw [h3, if_pos h]⟩
+        · left; rw [h3, if_neg h]
+      · right; exact ⟨x, List.mem_cons_of_mem _ hx, h3⟩
+
+/-- `maximum_absolute_load` of a plain load series (`max(abs(load))`) is the greatest absolute load: an upper bound of all
+`|L_i|` that is attained. -/
+theorem maxAbs_spec (l : List ℝ) (hne : l ≠ []) :
+    (∀ x ∈ l, |x| ≤ maxAbs l) ∧ ∃ x ∈ l, maxAbs l = |x| := by
+  match l, hne with
+  | y :: ys, _ =>
+    simp only [maxAbs, transc_abs]
+    obtain ⟨h1, h2, h3⟩ := maxAbsFrom_spec ys |y|
+    refine ⟨fun x hx => ?_, ?_⟩
+    · rcases List.mem_cons.mp hx with rfl | hx'
+      · exact h1
+      · exact h2 x hx'
+    · rcases h3 with h3 | ⟨x, hx, h3⟩
+      · exact ⟨y, List.mem_cons_self, h3⟩
+      · exact ⟨x, List.mem_cons_of_mem _ hx, h3⟩
+
+/-- `gamma_L` of the normal case with `L_max` computed from the load series (one assessment point, or one node of a mesh
+with `max_load_independently_for_nodes`, or all values of the mesh without it): eq. (2.3-5) with the greatest absolute
+load. -/
+theorem gammaL_normal_of_loads (PA beta s : ℝ) (pl : Spec.PL) (loads : List ℝ) (hne : loads ≠ [])
+    (hb : getBeta PA = some beta) :
+    ∃ Lmax, (∀ x ∈ loads, |x| ≤ Lmax) ∧ (∃ x ∈ loads, Lmax = |x|) ∧
+      gammaLNormal PA pl.val s (maxAbs loads) = some ((Lmax + Spec.alpha beta pl s) / Lmax) :=
+  ⟨maxAbs loads, (maxAbs_spec loads hne).1, (maxAbs_spec loads hne).2, (gammaL_formulas PA beta s (maxAbs loads) pl hb).1⟩
+
+example : maxAbs ([100, -300, 120] : List ℝ) = 300 := by
+  simp only [maxAbs, maxAbsFrom, transc_abs]; norm_num [abs_of_nonneg, abs_of_neg]
+
+/-- `maximum_absolute_load` of a mesh without `max_load_independently_for_nodes` (`abs().groupby("node_id").max().max()`)
+is the greatest absolute load over all nodes and load steps; with it, node `k` gets `maxAbs` of its own history
+(`maxAbs_spec`). -/
+theorem maxAbsMesh_spec (cols : List (List ℝ)) (hne : cols ≠ []) (hcol : ∀ c ∈ cols, c ≠ []) :
+    (∀ c ∈ cols, ∀ x ∈ c, |x| ≤ maxAbsMesh cols) ∧ (∃ c ∈ cols, ∃ x ∈ c, maxAbsMesh cols = |x|) ∧
+    (maxAbsPerNode cols).length = cols.length := by
+  have hne' : cols.map maxAbs ≠ [] := by simpa using hne
+  obtain ⟨hub, m, hm, hM⟩ := maxAbs_spec (cols.map maxAbs) hne'
+  have hnonneg : ∀ c ∈ cols, 0 ≤ maxAbs c := by
+    intro c hc
+    obtain ⟨x, -, hx⟩ := (maxAbs_spec c (hcol c hc)).2
+    rw [hx]; exact abs_nonneg x
+  refine ⟨fun c hc x hx => ?_, ?_, by simp [maxAbsPerNode]⟩
+  · have h1 := (maxAbs_spec c (hcol c hc)).1 x hx
+    have h2 := hub (maxAbs c) (List.mem_map.mpr ⟨c, hc, rfl⟩)
+    rw [abs_of_nonneg (hnonneg c hc)] at h2
+    exact le_trans h1 h2
+  · obtain ⟨c, hc, rfl⟩ := List.mem_map.mp hm
+    obtain ⟨x, hx, hx'⟩ := (maxAbs_spec c (hcol c hc)).2
+    refine ⟨c, hc, x, hx, ?_⟩
+    show maxAbs (cols.map maxAbs) = |x|
+    rw [hM, abs_of_nonneg (hnonneg c hc), hx']
+
 /-! ## safety index -/
 
 /-- **Partial.**  Full statement: `compute_beta P_A = −Φ⁻¹(P_A)` for the standard normal distribution
 function `Φ` and every `P_A ∈ (0, 0.5]`.  Proved: for ANY strictly increasing `Φ`, the function the code
 hands to the root finder, `x ↦ |Φ(x) − P_A|`, vanishes exactly at the solutions of `Φ(x) = P_A`, there is at most
 one, and for a root `x` the returned value is `β = −x`; with the symmetry `Φ(−x) = 1 − Φ(x)` this gives
-`Φ(β) = 1 − P_A` and `β ≥ 0` for `P_A ≤ 1/2`.  Missing: that `scipy.optimize.root` (hybrid Powell from
-`x₀ = −0.6` on a non-smooth residual) returns a root — a runtime fact, measured by the correspondence check
-against an independent quantile. -/
+`Φ(β) = 1 − P_A` and `β ≥ 0` for `P_A ≤ 1/2`.  Missing: that the `x` the code obtains IS the root for the standard
+normal `Φ`.  The code before the repair `tools/fixes/C09-compute-beta-quantile.diff` ran `scipy.optimize.root` (hybrid
+Powell from `x₀ = −0.6`) on that non-smooth residual, which does NOT return a root for every `P_A ∈ (0, 0.5]`
+(`RuntimeError` at `P_A = 0.4915868354632816`: finding `beta-root-search-fails`); the repaired code (the one modelled)
+takes `scipy.stats.norm.ppf(P_A)`.  That this special-function routine is `Φ⁻¹` is a runtime fact, measured by the
+correspondence check against an independent quantile. -/
 theorem beta_is_neg_quantile_partial (Φ : ℝ → ℝ) (hΦ : StrictMono Φ) (PA x : ℝ) :
     (|Φ x - PA| = 0 ↔ Φ x = PA) ∧
     (Φ x = PA → (∀ y, Φ y = PA → y = x) ∧ betaOfRoot x = -x ∧
